@@ -26,7 +26,8 @@ impl Iterator for PyRange {
             return None;
         }
         let out = self.cur;
-        self.cur += self.step;
+        // On overflow the range is exhausted (parking the cursor on `end` makes every later call return `None`).
+        self.cur = self.cur.checked_add(self.step).unwrap_or(self.end);
         Some(out)
     }
 }
